@@ -68,10 +68,15 @@ def make_classes(F, tr: Trace):
             tr.flag('deque-iadd-bypasses-put'); return super().__iadd__(xs)
 
     class RecStack(C.Stack):
+        first_is_main = False
+        seen = False
         def __init__(self, max_items=1024, max_item_size=1024):
             super().__init__(max_items, max_item_size)
             # same contents and the same bound as the deque the real constructor made (not the bound it *should* have)
             self.deque = RecDeque(self.deque, maxlen=self.deque.maxlen)
+            if RecStack.first_is_main and not RecStack.seen:
+                # run_script / run_auth_scripts build the VM's stack themselves: the first Stack made in this context is that one
+                RecStack.seen = True; self.deque.main = True
         def put(self, item):
             RecDeque.in_put = True
             try:
@@ -126,7 +131,8 @@ def make_classes(F, tr: Trace):
 class Instrumented:
     """Context manager: installs recording classes in tapescript.functions and wraps every
     dispatch-table entry (fetch hygiene, CALL/EVAL depth, LOOP iterations)."""
-    def __init__(self, tr: Trace, limit=None, factor=1):
+    def __init__(self, tr: Trace, limit=None, factor=1, auto_main=False):
+        self.auto_main = auto_main
         self.F = impl.functions()
         self.tr = tr
         self.limit = limit
@@ -134,6 +140,7 @@ class Instrumented:
     def __enter__(self):
         F, tr = self.F, self.tr
         self.RecStack, self.RecTape, self.RecDict = make_classes(F, tr)
+        self.RecStack.first_is_main = self.auto_main
         self.saved = dict(Tape=F.Tape, Stack=F.Stack, opcodes=dict(F.opcodes), nopcodes=dict(F.nopcodes),
                           run_tape=F.run_tape, OP_EVAL=F.OP_EVAL, OP_CALL=F.OP_CALL)
         F.Tape, F.Stack = self.RecTape, self.RecStack
